@@ -201,17 +201,21 @@ ST_CFG = {3: {"nids": 3, "owner": [1, 1, 0], "index": [1, 2, 1], "nvers": 2},
           4: {"nids": 4, "owner": [1, 1, 2, 0], "index": [1, 2, 1, 1], "nvers": 2}}
 
 
-def storage_histories(rep, nids, keep, name, max_hist=None):
+def storage_histories(rep, nids, keep, name, max_hist=None, one_in=1):
     """Model-check SlabStorage over nids identifiers with edge emission; write the histories
     selected by keep(ops, key) into PARTS part files.  Returns (part files, count, total)."""
     return model_histories(rep, "MC_SlabStorage.tla", "MC_SlabStorage_q.cfg", {"EmitEdges": "TRUE", "NIds": nids},
                            "MC_SlabStorage NIds=%d Versions={1,2} MaxFaults=1 (closure)" % nids,
-                           {"cfg": ST_CFG[nids]}, keep, name, max_hist)
+                           {"cfg": ST_CFG[nids]}, keep, name, max_hist, one_in=one_in)
 
 
-def model_histories(rep, module, cfg, consts, label, header, keep, name, max_hist=None, timeout=3600):
+def model_histories(rep, module, cfg, consts, label, header, keep, name, max_hist=None, timeout=3600, one_in=1):
     """Model-check a bounded configuration with edge emission; write the distinct emitted histories
-    selected by keep(ops, key) into PARTS part files.  Returns (part files, count, total)."""
+    selected by keep(ops, key) into PARTS part files.  one_in > 1: TLC itself prints only a random 1/one_in sample of the explored
+    transitions (EmitOneIn; all states are still visited and checked).  Returns (part files, count, total printed)."""
+    if one_in > 1:
+        consts = dict(consts, EmitOneIn=one_in)
+        label += " [1/%d of the transitions printed]" % one_in
     r, so = vlib.model_check(module, cfg, name, emit=True, consts=consts, timeout=timeout)
     rep.add_model(label, r)
     hdr = json.dumps(header)
@@ -588,7 +592,7 @@ def check_C15(rep):
     storage_stage(rep, "c15-edges-3ids", "SlabStorageTrace_C15.cfg", files, "edge")
     rep.stages["c15-edges-3ids"]["selected_of_distinct_histories"] = [n, total]
     if not quick:
-        files4, n4, total4 = storage_histories(rep, 4, lambda ops, key: frac(key + rep.seed, 1, 40), "c15-mc4")
+        files4, n4, total4 = storage_histories(rep, 4, lambda ops, key: frac(key + rep.seed, 1, 2), "c15-mc4", one_in=20)
         storage_stage(rep, "c15-edges-4ids", "SlabStorageTrace_C15.cfg", files4, "edge")
         rep.stages["c15-edges-4ids"]["selected_of_distinct_histories"] = [n4, total4]
     storage_random_stage(rep, "c15-random", "SlabStorageTrace_C15.cfg", 140 if quick else 4000, 80 if quick else 150, 6 if quick else 8)
@@ -810,11 +814,12 @@ def map_full_stage(rep, tcfg, what, prefix, wrap=False, limits=(255,)):
 def map_slab_stage(rep, tcfg, what, prefix):
     """Every transition of the slab-level map algorithm (MapSlabTree, layer C) for keys with distinct first-level digests."""
     quick = rep.tier == "quick"
-    nk, mk, den = (6, 5, 24) if quick else (8, 7, 40)
+    nk, mk, den = (6, 5, 24) if quick else (7, 6, 4)
     files, n, total = model_histories(rep, "MC_MapSlab.tla", "MC_MapSlab.cfg",
                                       {"EmitEdges": "TRUE", "Keys": keyset(nk), "MaxKeys": mk},
                                       "MC_MapSlab T=256 %d keys (<= %d present) x values {12,60,101,140}: all shapes, all ops incl. absent keys" % (nk, mk),
-                                      {"cfg": {"T": 256, "limit": 255}}, lambda ops, key: frac(key + rep.seed, 1, den), prefix + "-mslab", timeout=7200)
+                                      {"cfg": {"T": 256, "limit": 255}}, lambda ops, key: frac(key + rep.seed, 1, den), prefix + "-mslab", timeout=7200,
+                                      one_in=1 if quick else 4)
     base = len(rep.distinct)
     rep.distinct.update(range(base, base + n))
     hist_stage(rep, prefix + "-map-slab-edges", ["map-run"], "map", "MapTrace.tla", tcfg, files, "edge", what)
@@ -1081,9 +1086,12 @@ def nested_bfs_stage(rep, prefix, tcfg, what, only=None, rejects=False):
         if only and tag not in only:
             continue
         name = "%s-nbfs-%s" % (prefix, tag)
+        oi = 1
+        if not quick and den >= 6:
+            oi, den = den // 2, 2      # the large closures: TLC prints a sample itself
         files, n, total = model_histories(rep, "MC_Nested.tla", "MC_Nested.cfg", dict(consts, EmitEdges="TRUE", Rejects="TRUE" if rejects else "FALSE"),
                                           "MC_Nested %s (all heap shapes, all handles, all ops)" % " ".join("%s=%s" % kv for kv in sorted(consts.items())),
-                                          {"cfg": {"T": 256}}, lambda ops, key: frac(key + rep.seed, 1, den), name, timeout=3000)
+                                          {"cfg": {"T": 256}}, lambda ops, key: frac(key + rep.seed, 1, den), name, timeout=3000, one_in=oi)
         base = len(rep.distinct)
         rep.distinct.update(range(base, base + n))
         hist_stage(rep, name + "-edges", ["nested-run"], "nested", "NestedTrace.tla", tcfg, files, "edge", what)
